@@ -63,7 +63,7 @@ Proof. intros s. split; [apply stop_begin_enabled|apply stop_close_lis_enabled].
 Print Assumptions C15_stop_first_steps_enabled.
 
 Example C15_ex_live :
-  let s := lrun (init true true) [LStartBegin; LStartOpen; LStartSpawnPlain; LStartSpawnTLS; LAcceptOk 0; LAcceptOk 1; LAcceptOk 0; LAdmit 2;
+  let s := lrun (init true true) [LStartBegin; LStartOpen; LStartSpawnPlain; LStartSpawnTLS; LAcceptOk 0; LAcceptOk 1; LAcceptOk 0; LEnter 2;
                                   LStopBegin; LStopCloseLis] in
   stop_wait (pc s) = true /\ mu s = 11 /\
   exists ls s', exec s ls = Some s' /\ pc s' = PStopped /\ length ls = 10.
@@ -78,17 +78,17 @@ Proof. intros p t ls c s. exact (i_live s (reachable_inv p t ls) c). Qed.
 Print Assumptions C15_tracked_until_returned.
 
 (* Stop takes two snapshots: the registry (LStopCloseReg), then the tracked sockets (LStopCloseConns).  A connection accepted before
-   Stop that registers BETWEEN them (LAdmit 3 below) is in the second snapshot: its socket is closed, it finishes, Stop returns clean *)
+   Stop that registers BETWEEN them (LEnter 3 below) is in the second snapshot: its socket is closed, it finishes, Stop returns clean *)
 Example C15_ex_registers_between_snapshots :
-  let ls := [LStartBegin; LStartOpen; LStartSpawnPlain; LStartSpawnTLS; LAcceptOk 0; LAdmit 2; LAcceptOk 1;
-             LStopBegin; LStopCloseLis; LAcceptFail 0; LAcceptFail 1; LStopWaitAccept; LStopCloseReg; LAdmit 3; LStopCloseConns] in
+  let ls := [LStartBegin; LStartOpen; LStartSpawnPlain; LStartSpawnTLS; LAcceptOk 0; LEnter 2; LAcceptOk 1;
+             LStopBegin; LStopCloseLis; LAcceptFail 0; LAcceptFail 1; LStopWaitAccept; LStopCloseReg; LEnter 3; LStopCloseConns] in
   let s := lrun (init true true) ls in
   pc s = PStop4 /\ registry s = [3] /\ (forall c, In c (conns s) -> ct_open c = false) /\
   let s' := lrun s [LFinish 2; LFinish 3; LStopWaitConns] in pc s' = PStopped /\ registry s' = [] /\ conn_wg s' = 0.
 Proof. vm_compute. repeat split; try reflexivity. intros c [<-|[<-|[]]]; reflexivity. Qed.
 
 Example C15_ex :
-  let ls := [LStartBegin; LStartOpen; LStartSpawnPlain; LStartSpawnTLS; LAcceptOk 0; LAcceptOk 1; LAdmit 2; LHandshakeFail 3;
+  let ls := [LStartBegin; LStartOpen; LStartSpawnPlain; LStartSpawnTLS; LAcceptOk 0; LAcceptOk 1; LEnter 2; LHandshakeFail 3;
              LStopBegin; LStopCloseLis; LAcceptFail 0; LAcceptFail 1; LStopWaitAccept; LStopCloseReg; LStopCloseConns; LFinish 2; LStopWaitConns] in
   let s := lrun (init true true) ls in
   pc s = PStopped /\ registry s = [] /\ open_lis s = [] /\ conn_wg s = 0 /\ accept_wg s = 0 /\ length (conns s) = 2.
